@@ -7,7 +7,7 @@ year length taken before the week count wraps).  Source order stands in for cont
 between look-up and use, or look the length up again in the loop condition on every turn."""
 from core import strip, kids, walk, call_args, expr_text, CASTS
 
-LEN_FUNCS = ("__get_mdays", "__get_bdays", "__get_isowk", "__get_ndays", "__get_jan01_wday", "__get_m01_wday")
+LEN_FUNCS = ("__get_mdays", "__get_bdays", "__get_isowk", "__get_ydays", "__get_mcnt", "__get_jan01_wday", "__get_m01_wday")
 
 
 def _u(e):
@@ -53,6 +53,63 @@ def _flows(fn, a, b):
     return any(bb[0] in fn.cfg.reachable_from(s_) for s_ in fn.cfg.succs[ba[0]])
 
 
+def check_unit(R, tu, rule, only_file=None):
+    """run the rule over every function of a unit (optionally only those defined in one source file); returns the uses examined"""
+    total = 0
+    fl = tu.functions.values() if isinstance(tu.functions, dict) else tu.functions
+    for fn in fl:
+        if getattr(fn, "body", None) is None or (only_file and not fn.file.endswith(only_file)):
+            continue
+        found, uses = stale_lengths(fn)
+        total += uses
+        seen = set()
+        for d_, u_, w_, hit in found:
+            if (d_["i"], w_["i"]) in seen:
+                continue
+            seen.add((d_["i"], w_["i"]))
+            R.saw(fn)
+            src = d_["c"][1] if d_.get("k") == "BinaryOperator" else (kids(d_)[0] if kids(d_) else d_)
+            R.finding(rule, fn, "`%s` used after `%s`" % (expr_text(_u(src))[:40], expr_text(w_)),
+                      "the period length looked up at %s is used at %s after `%s` (%s) has changed `%s`, which the look-up read: on that path "
+                      "it is the length of a period the value is no longer in (a length taken once before a loop that moves on, say)"
+                      % (fn.where(d_), fn.where(u_), expr_text(w_), fn.where(w_), hit), u_)
+        if uses and not found:
+            R.ob(rule, "%s: %d uses of looked-up period lengths, each for the period it was looked up for" % (fn.name, uses), True)
+    return total
+
+
+def _path(fn, src, dst, kill=None):
+    if kill is not None and not isinstance(kill, (set, frozenset)):
+        kill = {tuple(kill)}
+    return _path_k(fn, src, dst, kill)
+
+
+def _path_k(fn, src, dst, kill):
+    """is there a control-flow path from just after element `src` to element `dst` that does not execute element `kill`?
+    positions are (block, index) pairs of CFG elements"""
+    cfg = fn.cfg
+    if src is None or dst is None:
+        return False
+    seen = set()
+    work = [(src[0], src[1] + 1)]
+    while work:
+        b, i = work.pop()
+        if (b, i) in seen:
+            continue
+        seen.add((b, i))
+        n = len(cfg.blocks[b]["e"])
+        while i < n:
+            if kill is not None and (b, i) in kill:
+                break
+            if (b, i) == tuple(dst):
+                return True
+            i += 1
+        else:
+            for s_ in cfg.succs[b]:
+                work.append((s_, 0))
+    return False
+
+
 def stale_lengths(fn, funcs=LEN_FUNCS):
     """yields (definition node, use node, write node, argument text) for every stale use; also returns the number of uses examined"""
     writes = _writes(fn)
@@ -84,16 +141,33 @@ def stale_lengths(fn, funcs=LEN_FUNCS):
                 elif y.get("k") == "DeclRefExpr" and y.get("dk") in ("var", "parm"):
                     reads_d.add(y["d"])
         nxt = min([i for i in alldefs.get(target, []) if i > dnode["i"]] or [10 ** 12])
+        kills = set()
+        for x_, t_ in writes:
+            if t_.get("k") == "DeclRefExpr" and t_.get("d") == target:
+                pk = _blk(fn, x_)
+                if pk is not None:
+                    kills.add(tuple(pk))
+        pdn = _blk(fn, dnode)
+        if pdn is not None:
+            kills.add(tuple(pdn))
         for u in fn.walk():
-            if u.get("k") == "DeclRefExpr" and u.get("d") == target and dnode["i"] < u.get("i", 0) < nxt:
+            if u.get("k") == "DeclRefExpr" and u.get("d") == target and u.get("i", 0) != dnode.get("i") and not any(y is u for y in walk(dnode)):
                 par = fn.parent(u)
                 if par is not None and par.get("k") in ("BinaryOperator",) and par.get("op") == "=" and _u(par["c"][0]) is u:
                     continue
+                if par is not None and (par.get("k") == "CompoundAssignOperator" or (par.get("k") == "UnaryOperator" and par.get("op") in ("++", "--"))) \
+                        and _u(par["c"][0]) is u:
+                    continue    # the length itself is being adjusted (kept in step by hand): a re-definition, not a use
                 nuses += 1
                 for w, t in writes:
-                    if not (call["i"] < w["i"] < u["i"]) or w is dnode:
+                    if w is dnode or any(y is w for y in walk(call)):
                         continue
-                    if not (_flows(fn, call, w) and _flows(fn, w, u)):
+                    pd, pw, pu = _blk(fn, dnode), _blk(fn, w), _blk(fn, u)
+                    if pd is None or pw is None or pu is None:
+                        if not (call["i"] < w["i"] < u["i"]):
+                            continue
+                    elif not (_path(fn, pd, pw) and _path(fn, pw, pu, kill=kills)):
+                        # the write is not between the look-up and the use on any path that does not look the length up again
                         continue
                     hit = None
                     if t.get("k") == "MemberExpr":
